@@ -60,9 +60,9 @@ Idle == stack = <<>> /\ rq = <<>> /\ cur.op = "none"
 RootCall(f, a, c) ==
   /\ Idle /\ nops < MaxOps
   /\ cur' = [op |-> "Call", f |-> f, a |-> a, c |-> c, mod |-> "normal"]
-  /\ ran' = <<>> /\ nops' = nops + 1
+  /\ nops' = nops + 1
   /\ IF Has(<<f, a, c>>)
-     THEN out' = memo[<<f, a, c>>].val /\ UNCHANGED stack
+     THEN out' = memo[<<f, a, c>>].val /\ ran' = <<>> /\ UNCHANGED stack
      ELSE stack' = <<Frame(<<f, a, c>>)>> /\ ran' = <<<<f, a>>>> /\ out' = <<>>
   /\ UNCHANGED <<P, memo, rq, rvals, mon, ok, last>>
 
